@@ -1,6 +1,6 @@
 (* C03 — Navigation is coherent with the tree structure.  Property theorems only. *)
 From CsModel Require Import TokenSpec.
-From CsModel Require Import Red RedProofs Nav NavSpec.
+From CsModel Require Import Red RedProofs Nav NavSpec IterSpec.
 
 Theorem C03_first_child_spec : forall g b rs p,
   IsNext b (kids g p) 0 (idx_of (fst (first_child_gen g b rs p))) /\
@@ -111,3 +111,15 @@ Theorem C03_first_token_unfixed_refuted :
   fst (first_token ex_tok_tree true [] []) = Some [1%nat].
 Proof. exact first_token_unfixed_refuted. Qed.
 Print Assumptions C03_first_token_unfixed_refuted.
+
+(* several nth(k) calls on ONE child iterator (next() = nth(0)): they yield what the same calls yield on the
+   plain list of the node's (wanted) children — `pick items script` takes the k-th remaining item and goes
+   on behind it; an exhausted call yields nothing and leaves the iterator exhausted *)
+Theorem C03_iter_script_spec : forall g (b : bool) rs p script,
+  fst (iter_script b (S (length (kids g p))) rs (iter_new g rs p) script)
+  = pick (wanted_positions b p (kids g p) 0%nat) script.
+Proof. exact iter_script_children_spec. Qed.
+Print Assumptions C03_iter_script_spec.
+
+Example C03_pick_example : pick [10; 11; 12; 13; 14]%nat [1; 0; 1; 5; 0]%nat = [11; 12; 14]%nat.
+Proof. reflexivity. Qed.
